@@ -1,7 +1,7 @@
 // C15: TetrahedralMeshTopologyKernel::collapse_edge(a->b) for every halfedge of a base mesh that satisfies the link condition
 // (decided by a brute-force predicate below), in the four deletion modes.
 //   shard params: 0 = base, 1 = deletion mode (bit0 deferred, bit1 fast), 2 = chunk of the halfedge range (C15_CPQ per query),
-//                 3 = 1: additionally run the vertex-order contracts (c15_order_checks.h) on the collapsed mesh
+//                 4 = cases per query (0: C15_CPQ = 4), 3 = 1: "deep": param 2 is ONE halfedge; additionally run the vertex-order contracts (c15_order_checks.h) on the collapsed mesh
 //   symbolic: the selector over the chunk's halfedges, the int cell-property values, and (param 3) the vertex / halfedge arguments
 // Claim checked (property text): the live cells afterwards are exactly the former live cells that did not contain both a and b,
 // with a replaced by b and the orientation (permutation parity of the vertex tuple) preserved; no degenerate cell; the returned
@@ -49,8 +49,10 @@ static bool link_condition(int a, int b) {
   return ok;
 }
 
-template <unsigned I> struct CollapseCase { static __attribute__((noinline)) void run() {
+static __attribute__((noinline)) void collapse_case(unsigned I) {
   const unsigned base = v_param(0), mode = v_param(1), chunk = v_param(2), deep = v_param(3);
+  const unsigned per = deep ? 1 : (v_param(4) ? v_param(4) : (unsigned)C15_CPQ);   // cases of this query (deep: one; param 2 is the halfedge itself)
+  if (I >= per) return;
   TetMesh m;
   set_mode(m, mode);
   build_tets(m, base);
@@ -59,7 +61,7 @@ template <unsigned I> struct CollapseCase { static __attribute__((noinline)) voi
   Snap s0; take_snapshot(m, s0);
   check_shape(m, s0);
   if (!R_ok || s0.nV > NV8) return;
-  const int he = (int)(chunk * C15_CPQ + I);
+  const int he = (int)(chunk * per + I);
   if (he >= 2 * s0.nE) return;
   const int a = r_he_from(he), b = r_he_to(he);
   for (int v = 0; v < s0.nV; ++v) tag[VH(v)] = v;
@@ -111,7 +113,8 @@ template <unsigned I> struct CollapseCase { static __attribute__((noinline)) voi
     }
   }
   v_witness("C15 collapse: collapsed and checked");
-} };
+}
+template <unsigned I> struct CollapseCase { static __attribute__((noinline)) void run() { collapse_case(I); } };
 
 extern "C" void harness_c15_collapse() {
   unsigned sel = v_nondet_u32();
